@@ -12,6 +12,7 @@ from contracts.replays import replay  # noqa: F401
 
 ID = "C15"
 LEVEL = "proof"
+CROSSCHECK = True   # run the CPython cross-check of the executor encoding (pyvc/crosscheck.py)
 F = "moclo/moclo/record.py"
 FILES = [F]
 FUNCTIONS = [(F, "CircularRecord.__contains__"), (F, "CircularRecord.__add__"), (F, "CircularRecord.__radd__"),
